@@ -256,7 +256,7 @@ def run_inspect(path, arch, lines=None, fixed=False):
 
     _install()
     _Cap.last.clear()
-    argv = ["--arch", arch, "--lcd-timeout", "30"]
+    argv = (["--arch", arch] if arch else []) + ["--lcd-timeout", "30"]
     if fixed:
         argv.append("--fixed")
     if lines:
@@ -452,6 +452,26 @@ def check_select(c, R, workdir=None, e2e=False):
         R.count("monitor:inspect_selection")
         if c.get("integer_only") and c["style"] != "none":
             R.count("inspect_marked_integer_only_x86")
+            # the same file without --arch: the ISA guessed from the text is wrong for such code, the analysis falls back to the
+            # other ISA's parser - the selection must be the same
+            path2 = os.path.join(workdir, "sel2-%s.s" % ident)
+            with open(path2, "w") as f:
+                f.write(c["text"])
+            try:
+                with time_limit(120):
+                    snap2 = run_inspect(path2, None)
+                R.count("inspect_without_arch_integer_only_x86")
+                if snap2["lines"] != c["expected"]:
+                    R.violation("inspect/marked/no-arch/" + classify_selection(snap2["lines"], c["expected"], c["layout"]),
+                                "inspect() without --arch analysed lines %s, lines strictly between the markers %s" % (snap2["lines"][:40], c["expected"][:40]), c)
+            except CaseTimeout:
+                R.inconclusive += 1
+            except Exception as e:  # noqa
+                if not in_osaca(e):
+                    raise
+                R.exception(e, c, prefix="inspect-no-arch/")
+            finally:
+                os.unlink(path2)
         if snap["lines"] != c["expected"]:
             R.violation("inspect/%s/%s" % ("marked" if c["style"] != "none" else "unmarked", classify_selection(snap["lines"], c["expected"], c["layout"])),
                         "inspect() analysed lines %s, lines strictly between the markers %s" % (snap["lines"][:40], c["expected"][:40]), c)
@@ -724,6 +744,7 @@ def floors(tier):
         "monitor:inspect_selection": 20 if q else 300,
         "monitor:inspect_lines": 10 if q else 150,
         "inspect_marked_integer_only_x86": 5 if q else 60,
+        "inspect_without_arch_integer_only_x86": 5 if q else 60,
         "meta_generated_two_accumulator_files": 10 if q else 40,
         "monitor:inspect_variants": 80 if q else 1000,
         "monitor:full_analysis": 80 if q else 1000,
